@@ -171,8 +171,8 @@ fn sections(t: CTy, tier: Tier) -> Vec<(String, Section)> {
     out.push(("max(P::A,Q::B) direct".into(), vec![("C", CE::Max(vec![a(), b()]))]));
     // declared in an order where a later const is referenced by an earlier-named one
     out.push(("Z=ext;A=Z".into(), vec![("Z", a()), ("A", r("Z"))]));
-    if tier == Tier::Thorough {
-        // every constant expression with <= 2 operators (min / max / + / -) over the atoms
+    {
+        // every constant expression with <= 2 operators (quick: <= 1 operator) (min / max / + / -) over the atoms
         // {A (= P::A), Q::B, 1, 2, MAX}, declared as `const A = P::A; const B = <expr>;`
         let atoms: Vec<CE> = vec![r("A"), b(), CE::Lit(1), CE::Lit(2), CE::Lit(it.max())];
         let mk = |op: usize, l: CE, rr: CE| match op {
@@ -197,6 +197,9 @@ fn sections(t: CTy, tier: Tier) -> Vec<(String, Section)> {
                     d2.push(mk(op, y.clone(), x.clone()));
                 }
             }
+        }
+        if tier == Tier::Quick {
+            d2.clear();
         }
         for e in d1.into_iter().chain(d2.into_iter()) {
             let mut ex = BTreeSet::new();
